@@ -78,3 +78,287 @@ Fixpoint add3 (l1 l2 : list R) : list R :=
   | a :: l1', b :: l2' => (a + b) :: add3 l1' l2'
   | _, _ => []
   end.
+
+(* ---- closed forms of the real spherical harmonics the code uses, degree <= 4 (mode index k =
+   l (l + 1) + m as in spherical_index_k / spherical_index_lm; k = 0 is the constant mode, which
+   the droplet classes skip), and of the axisymmetric harmonics Y_l0, degree <= 4.
+   Yreal k = Nreal k * Pshape k: normalisation constant times an unnormalised trigonometric shape;
+   Pshape_t, _p, _tt, _tp, _pp are its partial derivatives in theta / phi (proved in
+   Proofs/PerturbedHarm.v).  The closed forms are tied to the library's harmonics
+   (scipy sph_harm_y behind spherical_harmonic_real_k / spherical_harmonic_symmetric) by interval
+   sample goals on every run. ---- *)
+Definition Pshape (k : nat) (theta phi : R) : R :=
+  match k with
+  | 0%nat => 1
+  | 1%nat => (sin phi * sin theta)
+  | 2%nat => cos theta
+  | 3%nat => (cos phi * sin theta)
+  | 4%nat => ((sin theta ^ 2) * sin ((2 * phi)))
+  | 5%nat => (cos theta * sin phi * sin theta)
+  | 6%nat => ((-1) + (3 * (cos theta ^ 2)))
+  | 7%nat => (cos phi * cos theta * sin theta)
+  | 8%nat => ((sin theta ^ 2) * cos ((2 * phi)))
+  | 9%nat => ((sin theta ^ 3) * sin ((3 * phi)))
+  | 10%nat => ((sin theta ^ 2) * cos theta * sin ((2 * phi)))
+  | 11%nat => (((-1) * sin phi * sin theta) + (5 * (cos theta ^ 2) * sin phi * sin theta))
+  | 12%nat => (((-3) * cos theta) + (5 * (cos theta ^ 3)))
+  | 13%nat => (((-1) * cos phi * sin theta) + (5 * (cos theta ^ 2) * cos phi * sin theta))
+  | 14%nat => ((sin theta ^ 2) * cos theta * cos ((2 * phi)))
+  | 15%nat => ((sin theta ^ 3) * cos ((3 * phi)))
+  | 16%nat => ((sin theta ^ 4) * sin ((4 * phi)))
+  | 17%nat => ((sin theta ^ 3) * cos theta * sin ((3 * phi)))
+  | 18%nat => (((-1) * (sin theta ^ 2) * sin ((2 * phi))) + (7 * (cos theta ^ 2) * (sin theta ^ 2) * sin ((2 * phi))))
+  | 19%nat => (((-3) * cos theta * sin phi * sin theta) + (7 * (cos theta ^ 3) * sin phi * sin theta))
+  | 20%nat => (3 + ((-30) * (cos theta ^ 2)) + (35 * (cos theta ^ 4)))
+  | 21%nat => (((-3) * cos phi * cos theta * sin theta) + (7 * (cos theta ^ 3) * cos phi * sin theta))
+  | 22%nat => (((-1) * (sin theta ^ 2) * cos ((2 * phi))) + (7 * (cos theta ^ 2) * (sin theta ^ 2) * cos ((2 * phi))))
+  | 23%nat => ((sin theta ^ 3) * cos theta * cos ((3 * phi)))
+  | 24%nat => ((sin theta ^ 4) * cos ((4 * phi)))
+  | _ => 0
+  end.
+
+Definition Pshape_t (k : nat) (theta phi : R) : R :=
+  match k with
+  | 0%nat => 0
+  | 1%nat => (cos theta * sin phi)
+  | 2%nat => ((-1) * sin theta)
+  | 3%nat => (cos phi * cos theta)
+  | 4%nat => (2 * cos theta * sin theta * sin ((2 * phi)))
+  | 5%nat => (((cos theta ^ 2) * sin phi) + ((-1) * (sin theta ^ 2) * sin phi))
+  | 6%nat => ((-6) * cos theta * sin theta)
+  | 7%nat => (((cos theta ^ 2) * cos phi) + ((-1) * (sin theta ^ 2) * cos phi))
+  | 8%nat => (2 * cos theta * cos ((2 * phi)) * sin theta)
+  | 9%nat => (3 * (sin theta ^ 2) * cos theta * sin ((3 * phi)))
+  | 10%nat => (((-1) * (sin theta ^ 3) * sin ((2 * phi))) + (2 * (cos theta ^ 2) * sin theta * sin ((2 * phi))))
+  | 11%nat => (((-1) * cos theta * sin phi) + (5 * (cos theta ^ 3) * sin phi) + ((-10) * (sin theta ^ 2) * cos theta * sin phi))
+  | 12%nat => ((3 * sin theta) + ((-15) * (cos theta ^ 2) * sin theta))
+  | 13%nat => (((-1) * cos phi * cos theta) + (5 * (cos theta ^ 3) * cos phi) + ((-10) * (sin theta ^ 2) * cos phi * cos theta))
+  | 14%nat => (((-1) * (sin theta ^ 3) * cos ((2 * phi))) + (2 * (cos theta ^ 2) * cos ((2 * phi)) * sin theta))
+  | 15%nat => (3 * (sin theta ^ 2) * cos theta * cos ((3 * phi)))
+  | 16%nat => (4 * (sin theta ^ 3) * cos theta * sin ((4 * phi)))
+  | 17%nat => (((-1) * (sin theta ^ 4) * sin ((3 * phi))) + (3 * (cos theta ^ 2) * (sin theta ^ 2) * sin ((3 * phi))))
+  | 18%nat => (((-14) * (sin theta ^ 3) * cos theta * sin ((2 * phi))) + ((-2) * cos theta * sin theta * sin ((2 * phi))) + (14 * (cos theta ^ 3) * sin theta * sin ((2 * phi))))
+  | 19%nat => (((-3) * (cos theta ^ 2) * sin phi) + (3 * (sin theta ^ 2) * sin phi) + (7 * (cos theta ^ 4) * sin phi) + ((-21) * (cos theta ^ 2) * (sin theta ^ 2) * sin phi))
+  | 20%nat => (((-140) * (cos theta ^ 3) * sin theta) + (60 * cos theta * sin theta))
+  | 21%nat => (((-3) * (cos theta ^ 2) * cos phi) + (3 * (sin theta ^ 2) * cos phi) + (7 * (cos theta ^ 4) * cos phi) + ((-21) * (cos theta ^ 2) * (sin theta ^ 2) * cos phi))
+  | 22%nat => (((-14) * (sin theta ^ 3) * cos theta * cos ((2 * phi))) + ((-2) * cos theta * cos ((2 * phi)) * sin theta) + (14 * (cos theta ^ 3) * cos ((2 * phi)) * sin theta))
+  | 23%nat => (((-1) * (sin theta ^ 4) * cos ((3 * phi))) + (3 * (cos theta ^ 2) * (sin theta ^ 2) * cos ((3 * phi))))
+  | 24%nat => (4 * (sin theta ^ 3) * cos theta * cos ((4 * phi)))
+  | _ => 0
+  end.
+
+Definition Pshape_p (k : nat) (theta phi : R) : R :=
+  match k with
+  | 0%nat => 0
+  | 1%nat => (cos phi * sin theta)
+  | 2%nat => 0
+  | 3%nat => ((-1) * sin phi * sin theta)
+  | 4%nat => (2 * (sin theta ^ 2) * cos ((2 * phi)))
+  | 5%nat => (cos phi * cos theta * sin theta)
+  | 6%nat => 0
+  | 7%nat => ((-1) * cos theta * sin phi * sin theta)
+  | 8%nat => ((-2) * (sin theta ^ 2) * sin ((2 * phi)))
+  | 9%nat => (3 * (sin theta ^ 3) * cos ((3 * phi)))
+  | 10%nat => (2 * (sin theta ^ 2) * cos theta * cos ((2 * phi)))
+  | 11%nat => (((-1) * cos phi * sin theta) + (5 * (cos theta ^ 2) * cos phi * sin theta))
+  | 12%nat => 0
+  | 13%nat => ((sin phi * sin theta) + ((-5) * (cos theta ^ 2) * sin phi * sin theta))
+  | 14%nat => ((-2) * (sin theta ^ 2) * cos theta * sin ((2 * phi)))
+  | 15%nat => ((-3) * (sin theta ^ 3) * sin ((3 * phi)))
+  | 16%nat => (4 * (sin theta ^ 4) * cos ((4 * phi)))
+  | 17%nat => (3 * (sin theta ^ 3) * cos theta * cos ((3 * phi)))
+  | 18%nat => (((-2) * (sin theta ^ 2) * cos ((2 * phi))) + (14 * (cos theta ^ 2) * (sin theta ^ 2) * cos ((2 * phi))))
+  | 19%nat => (((-3) * cos phi * cos theta * sin theta) + (7 * (cos theta ^ 3) * cos phi * sin theta))
+  | 20%nat => 0
+  | 21%nat => (((-7) * (cos theta ^ 3) * sin phi * sin theta) + (3 * cos theta * sin phi * sin theta))
+  | 22%nat => ((2 * (sin theta ^ 2) * sin ((2 * phi))) + ((-14) * (cos theta ^ 2) * (sin theta ^ 2) * sin ((2 * phi))))
+  | 23%nat => ((-3) * (sin theta ^ 3) * cos theta * sin ((3 * phi)))
+  | 24%nat => ((-4) * (sin theta ^ 4) * sin ((4 * phi)))
+  | _ => 0
+  end.
+
+Definition Pshape_tt (k : nat) (theta phi : R) : R :=
+  match k with
+  | 0%nat => 0
+  | 1%nat => ((-1) * sin phi * sin theta)
+  | 2%nat => ((-1) * cos theta)
+  | 3%nat => ((-1) * cos phi * sin theta)
+  | 4%nat => (((-2) * (sin theta ^ 2) * sin ((2 * phi))) + (2 * (cos theta ^ 2) * sin ((2 * phi))))
+  | 5%nat => ((-4) * cos theta * sin phi * sin theta)
+  | 6%nat => (((-6) * (cos theta ^ 2)) + (6 * (sin theta ^ 2)))
+  | 7%nat => ((-4) * cos phi * cos theta * sin theta)
+  | 8%nat => (((-2) * (sin theta ^ 2) * cos ((2 * phi))) + (2 * (cos theta ^ 2) * cos ((2 * phi))))
+  | 9%nat => (((-3) * (sin theta ^ 3) * sin ((3 * phi))) + (6 * (cos theta ^ 2) * sin theta * sin ((3 * phi))))
+  | 10%nat => ((2 * (cos theta ^ 3) * sin ((2 * phi))) + ((-7) * (sin theta ^ 2) * cos theta * sin ((2 * phi))))
+  | 11%nat => ((sin phi * sin theta) + (10 * (sin theta ^ 3) * sin phi) + ((-35) * (cos theta ^ 2) * sin phi * sin theta))
+  | 12%nat => (((-15) * (cos theta ^ 3)) + (3 * cos theta) + (30 * (sin theta ^ 2) * cos theta))
+  | 13%nat => ((cos phi * sin theta) + (10 * (sin theta ^ 3) * cos phi) + ((-35) * (cos theta ^ 2) * cos phi * sin theta))
+  | 14%nat => ((2 * (cos theta ^ 3) * cos ((2 * phi))) + ((-7) * (sin theta ^ 2) * cos theta * cos ((2 * phi))))
+  | 15%nat => (((-3) * (sin theta ^ 3) * cos ((3 * phi))) + (6 * (cos theta ^ 2) * cos ((3 * phi)) * sin theta))
+  | 16%nat => (((-4) * (sin theta ^ 4) * sin ((4 * phi))) + (12 * (cos theta ^ 2) * (sin theta ^ 2) * sin ((4 * phi))))
+  | 17%nat => (((-10) * (sin theta ^ 3) * cos theta * sin ((3 * phi))) + (6 * (cos theta ^ 3) * sin theta * sin ((3 * phi))))
+  | 18%nat => (((-2) * (cos theta ^ 2) * sin ((2 * phi))) + (2 * (sin theta ^ 2) * sin ((2 * phi))) + (14 * (cos theta ^ 4) * sin ((2 * phi))) + (14 * (sin theta ^ 4) * sin ((2 * phi))) + ((-84) * (cos theta ^ 2) * (sin theta ^ 2) * sin ((2 * phi))))
+  | 19%nat => (((-70) * (cos theta ^ 3) * sin phi * sin theta) + (12 * cos theta * sin phi * sin theta) + (42 * (sin theta ^ 3) * cos theta * sin phi))
+  | 20%nat => (((-140) * (cos theta ^ 4)) + ((-60) * (sin theta ^ 2)) + (60 * (cos theta ^ 2)) + (420 * (cos theta ^ 2) * (sin theta ^ 2)))
+  | 21%nat => (((-70) * (cos theta ^ 3) * cos phi * sin theta) + (12 * cos phi * cos theta * sin theta) + (42 * (sin theta ^ 3) * cos phi * cos theta))
+  | 22%nat => (((-2) * (cos theta ^ 2) * cos ((2 * phi))) + (2 * (sin theta ^ 2) * cos ((2 * phi))) + (14 * (cos theta ^ 4) * cos ((2 * phi))) + (14 * (sin theta ^ 4) * cos ((2 * phi))) + ((-84) * (cos theta ^ 2) * (sin theta ^ 2) * cos ((2 * phi))))
+  | 23%nat => (((-10) * (sin theta ^ 3) * cos theta * cos ((3 * phi))) + (6 * (cos theta ^ 3) * cos ((3 * phi)) * sin theta))
+  | 24%nat => (((-4) * (sin theta ^ 4) * cos ((4 * phi))) + (12 * (cos theta ^ 2) * (sin theta ^ 2) * cos ((4 * phi))))
+  | _ => 0
+  end.
+
+Definition Pshape_tp (k : nat) (theta phi : R) : R :=
+  match k with
+  | 0%nat => 0
+  | 1%nat => (cos phi * cos theta)
+  | 2%nat => 0
+  | 3%nat => ((-1) * cos theta * sin phi)
+  | 4%nat => (4 * cos theta * cos ((2 * phi)) * sin theta)
+  | 5%nat => (((cos theta ^ 2) * cos phi) + ((-1) * (sin theta ^ 2) * cos phi))
+  | 6%nat => 0
+  | 7%nat => (((sin theta ^ 2) * sin phi) + ((-1) * (cos theta ^ 2) * sin phi))
+  | 8%nat => ((-4) * cos theta * sin theta * sin ((2 * phi)))
+  | 9%nat => (9 * (sin theta ^ 2) * cos theta * cos ((3 * phi)))
+  | 10%nat => (((-2) * (sin theta ^ 3) * cos ((2 * phi))) + (4 * (cos theta ^ 2) * cos ((2 * phi)) * sin theta))
+  | 11%nat => (((-1) * cos phi * cos theta) + (5 * (cos theta ^ 3) * cos phi) + ((-10) * (sin theta ^ 2) * cos phi * cos theta))
+  | 12%nat => 0
+  | 13%nat => ((cos theta * sin phi) + ((-5) * (cos theta ^ 3) * sin phi) + (10 * (sin theta ^ 2) * cos theta * sin phi))
+  | 14%nat => ((2 * (sin theta ^ 3) * sin ((2 * phi))) + ((-4) * (cos theta ^ 2) * sin theta * sin ((2 * phi))))
+  | 15%nat => ((-9) * (sin theta ^ 2) * cos theta * sin ((3 * phi)))
+  | 16%nat => (16 * (sin theta ^ 3) * cos theta * cos ((4 * phi)))
+  | 17%nat => (((-3) * (sin theta ^ 4) * cos ((3 * phi))) + (9 * (cos theta ^ 2) * (sin theta ^ 2) * cos ((3 * phi))))
+  | 18%nat => (((-28) * (sin theta ^ 3) * cos theta * cos ((2 * phi))) + ((-4) * cos theta * cos ((2 * phi)) * sin theta) + (28 * (cos theta ^ 3) * cos ((2 * phi)) * sin theta))
+  | 19%nat => (((-3) * (cos theta ^ 2) * cos phi) + (3 * (sin theta ^ 2) * cos phi) + (7 * (cos theta ^ 4) * cos phi) + ((-21) * (cos theta ^ 2) * (sin theta ^ 2) * cos phi))
+  | 20%nat => 0
+  | 21%nat => (((-7) * (cos theta ^ 4) * sin phi) + ((-3) * (sin theta ^ 2) * sin phi) + (3 * (cos theta ^ 2) * sin phi) + (21 * (cos theta ^ 2) * (sin theta ^ 2) * sin phi))
+  | 22%nat => (((-28) * (cos theta ^ 3) * sin theta * sin ((2 * phi))) + (4 * cos theta * sin theta * sin ((2 * phi))) + (28 * (sin theta ^ 3) * cos theta * sin ((2 * phi))))
+  | 23%nat => ((3 * (sin theta ^ 4) * sin ((3 * phi))) + ((-9) * (cos theta ^ 2) * (sin theta ^ 2) * sin ((3 * phi))))
+  | 24%nat => ((-16) * (sin theta ^ 3) * cos theta * sin ((4 * phi)))
+  | _ => 0
+  end.
+
+Definition Pshape_pp (k : nat) (theta phi : R) : R :=
+  match k with
+  | 0%nat => 0
+  | 1%nat => ((-1) * sin phi * sin theta)
+  | 2%nat => 0
+  | 3%nat => ((-1) * cos phi * sin theta)
+  | 4%nat => ((-4) * (sin theta ^ 2) * sin ((2 * phi)))
+  | 5%nat => ((-1) * cos theta * sin phi * sin theta)
+  | 6%nat => 0
+  | 7%nat => ((-1) * cos phi * cos theta * sin theta)
+  | 8%nat => ((-4) * (sin theta ^ 2) * cos ((2 * phi)))
+  | 9%nat => ((-9) * (sin theta ^ 3) * sin ((3 * phi)))
+  | 10%nat => ((-4) * (sin theta ^ 2) * cos theta * sin ((2 * phi)))
+  | 11%nat => ((sin phi * sin theta) + ((-5) * (cos theta ^ 2) * sin phi * sin theta))
+  | 12%nat => 0
+  | 13%nat => ((cos phi * sin theta) + ((-5) * (cos theta ^ 2) * cos phi * sin theta))
+  | 14%nat => ((-4) * (sin theta ^ 2) * cos theta * cos ((2 * phi)))
+  | 15%nat => ((-9) * (sin theta ^ 3) * cos ((3 * phi)))
+  | 16%nat => ((-16) * (sin theta ^ 4) * sin ((4 * phi)))
+  | 17%nat => ((-9) * (sin theta ^ 3) * cos theta * sin ((3 * phi)))
+  | 18%nat => ((4 * (sin theta ^ 2) * sin ((2 * phi))) + ((-28) * (cos theta ^ 2) * (sin theta ^ 2) * sin ((2 * phi))))
+  | 19%nat => (((-7) * (cos theta ^ 3) * sin phi * sin theta) + (3 * cos theta * sin phi * sin theta))
+  | 20%nat => 0
+  | 21%nat => (((-7) * (cos theta ^ 3) * cos phi * sin theta) + (3 * cos phi * cos theta * sin theta))
+  | 22%nat => ((4 * (sin theta ^ 2) * cos ((2 * phi))) + ((-28) * (cos theta ^ 2) * (sin theta ^ 2) * cos ((2 * phi))))
+  | 23%nat => ((-9) * (sin theta ^ 3) * cos theta * cos ((3 * phi)))
+  | 24%nat => ((-16) * (sin theta ^ 4) * cos ((4 * phi)))
+  | _ => 0
+  end.
+
+Definition Lshape (k : nat) (theta : R) : R :=
+  match k with
+  | 0%nat => 1
+  | 1%nat => cos theta
+  | 2%nat => ((-1) + (3 * (cos theta ^ 2)))
+  | 3%nat => (((-3) * cos theta) + (5 * (cos theta ^ 3)))
+  | 4%nat => (3 + ((-30) * (cos theta ^ 2)) + (35 * (cos theta ^ 4)))
+  | _ => 0
+  end.
+
+Definition Lshape_t (k : nat) (theta : R) : R :=
+  match k with
+  | 0%nat => 0
+  | 1%nat => ((-1) * sin theta)
+  | 2%nat => ((-6) * cos theta * sin theta)
+  | 3%nat => ((3 * sin theta) + ((-15) * (cos theta ^ 2) * sin theta))
+  | 4%nat => (((-140) * (cos theta ^ 3) * sin theta) + (60 * cos theta * sin theta))
+  | _ => 0
+  end.
+
+Definition Lshape_tt (k : nat) (theta : R) : R :=
+  match k with
+  | 0%nat => 0
+  | 1%nat => ((-1) * cos theta)
+  | 2%nat => (((-6) * (cos theta ^ 2)) + (6 * (sin theta ^ 2)))
+  | 3%nat => (((-15) * (cos theta ^ 3)) + (3 * cos theta) + (30 * (sin theta ^ 2) * cos theta))
+  | 4%nat => (((-140) * (cos theta ^ 4)) + ((-60) * (sin theta ^ 2)) + (60 * (cos theta ^ 2)) + (420 * (cos theta ^ 2) * (sin theta ^ 2)))
+  | _ => 0
+  end.
+
+Definition Nreal (k : nat) : R :=
+  match k with
+  | 0%nat => sqrt (1 / (4 * PI))
+  | 1%nat => sqrt (3 / (4 * PI))
+  | 2%nat => sqrt (3 / (4 * PI))
+  | 3%nat => sqrt (3 / (4 * PI))
+  | 4%nat => sqrt (15 / (16 * PI))
+  | 5%nat => sqrt (15 / (4 * PI))
+  | 6%nat => sqrt (5 / (16 * PI))
+  | 7%nat => sqrt (15 / (4 * PI))
+  | 8%nat => sqrt (15 / (16 * PI))
+  | 9%nat => sqrt (35 / (32 * PI))
+  | 10%nat => sqrt (105 / (16 * PI))
+  | 11%nat => sqrt (21 / (32 * PI))
+  | 12%nat => sqrt (7 / (16 * PI))
+  | 13%nat => sqrt (21 / (32 * PI))
+  | 14%nat => sqrt (105 / (16 * PI))
+  | 15%nat => sqrt (35 / (32 * PI))
+  | 16%nat => sqrt (315 / (256 * PI))
+  | 17%nat => sqrt (315 / (32 * PI))
+  | 18%nat => sqrt (45 / (64 * PI))
+  | 19%nat => sqrt (45 / (32 * PI))
+  | 20%nat => sqrt (9 / (256 * PI))
+  | 21%nat => sqrt (45 / (32 * PI))
+  | 22%nat => sqrt (45 / (64 * PI))
+  | 23%nat => sqrt (315 / (32 * PI))
+  | 24%nat => sqrt (315 / (256 * PI))
+  | _ => 0
+  end.
+
+Definition Nsym (k : nat) : R :=
+  match k with
+  | 0%nat => sqrt (1 / (4 * PI))
+  | 1%nat => sqrt (3 / (4 * PI))
+  | 2%nat => sqrt (5 / (16 * PI))
+  | 3%nat => sqrt (7 / (16 * PI))
+  | 4%nat => sqrt (9 / (256 * PI))
+  | _ => 0
+  end.
+
+Definition Yreal (k : nat) (theta phi : R) : R := Nreal k * Pshape k theta phi.
+Definition Ysym (l : nat) (theta : R) : R := Nsym l * Lshape l theta.
+
+(* Laplace-Beltrami operator on the unit sphere in terms of the partial derivatives of Y at a point:
+   1/sin(theta) d/dtheta (sin(theta) dY/dtheta) + 1/sin^2(theta) d^2Y/dphi^2 *)
+Definition LB_jet (theta yt ytt ypp : R) : R :=
+  ytt + cos theta / sin theta * yt + ypp / (sin theta) ^ 2.
+
+(* Mean curvature (k1 + k2)/2 w.r.t. the outward normal of the radial graph rho = r(theta, phi), in terms
+   of the value and the partial derivatives of r at (theta, phi):  H = (1/2) div (grad F / |grad F|) for the
+   level-set function F = rho - r(theta, phi), evaluated in spherical coordinates at rho = r
+   (grad F = (1, -r_theta/rho, -r_phi/(rho sin theta)); the divergence of (A_rho, A_theta, A_phi) is
+   rho^-2 d_rho(rho^2 A_rho) + (rho sin theta)^-1 (d_theta(sin theta A_theta) + d_phi A_phi)).
+   With s = sin theta, c = cos theta, Q = r^2 s^2 + r_phi^2 + r_theta^2 s^2 this gives  -N / (2 r Q^(3/2)).
+   The formula is a DEFINITION here (the differential geometry is not formalised); the harness compares
+   it on every run with a finite-difference mean curvature of the level set of the implementation's
+   interface_distance, and the sphere (all derivatives 0) gives 1/r. *)
+Definition H_radial (theta r rt rp rtt rtp rpp : R) : R :=
+  let s := sin theta in
+  let c := cos theta in
+  let Q := r ^ 2 * s ^ 2 + rp ^ 2 + rt ^ 2 * s ^ 2 in
+  let N := - 2 * r ^ 3 * s ^ 3 + r ^ 2 * rpp * s + r ^ 2 * rt * s ^ 2 * c + r ^ 2 * rtt * s ^ 3
+           - 3 * r * rp ^ 2 * s - 3 * r * rt ^ 2 * s ^ 3 + 2 * rp ^ 2 * rt * c + rp ^ 2 * rtt * s
+           - 2 * rp * rt * rtp * s + rpp * rt ^ 2 * s + rt ^ 3 * s ^ 2 * c in
+  - N / (2 * r * (Q * sqrt Q)).
